@@ -323,9 +323,9 @@ theorem operate_source_bare_minus (tr : Tr α) (pre : Str) (hp : PreOK pre) (e :
   operate_bare_minus tr pre hp e h P Q hS hP
 
 /-- **front end `Track[expr]`**: when the (stripped) string contains one of the characters `+ - / * ^ > < ( ) = '`
-that `Track.__getitem__` looks for, `Track[expr]` is `Track.operate(expr)` — every statement above about `operate`
-then holds for `Track[…]`. (A string with none of them — a function call alone such as `SUM{a}`, a number alone — is
-taken for a feature name: see the examples below and the finding class `getitem-expression-taken-for-a-name`.) -/
+or `{` that `Track.__getitem__` looks for, `Track[expr]` is `Track.operate(expr)` — every statement above about `operate`
+then holds for `Track[…]`. The opening brace `{` is one of them since fix 396f8f9, so a function call alone (`SUM{a}`)
+is evaluated; a string with none of them (a name, or a number alone) is looked up as a feature name. -/
 theorem getitem_is_operate (tr : Tr α) (s : Str) (hs : strip s = s)
     (h : s.any (fun c => exprChars.contains c) = true) : getitemStr tr s = operate tr s := by
   simp only [getitemStr, hs, h, if_true]
@@ -337,22 +337,21 @@ oracle, stream `externals`, not proved.) -/
 theorem operate_no_externals (tr : Tr α) (expr : Str) : operateX [] tr expr = operate tr expr :=
   operateX_nil tr expr
 
-/-- **T8 (`MIN` / `MAX` as coded vs the documented `min(x)` / `max(x)`)**: under irreflexivity and transitivity of
-the comparison, as soon as one value of the vector is below the sentinel `1e300` (above `-1e300`) the result of
-`Min` (`Max`) is the minimum (maximum) of the vector: it is one of its values and no value is below (above) it —
-NaN, which compares false with everything, is skipped. When every value is beyond the sentinel the result is the
-sentinel (`aggregate_sentinel`; finding class `extremum-beyond-sentinel`). -/
-theorem aggregate_min_max (L : OrdLaws α) (c : List α) (w : α) (hw : w ∈ c) :
-    (Scalar.lt w Scalar.big = true → minL c ∈ c ∧ ∀ v ∈ c, Scalar.lt v (minL c) = false) ∧
-    (Scalar.lt (Scalar.neg Scalar.big) w = true → maxL c ∈ c ∧ ∀ v ∈ c, Scalar.lt (maxL c) v = false) :=
-  ⟨minL_is_minimum L c w hw, maxL_is_maximum L c w hw⟩
+/-- **T8 (`MIN` / `MAX` as coded are the documented `min(x)` / `max(x)`, at every magnitude)**: the folds of `Min` /
+`Max` start from `+inf` / `-inf` (fix 68863c7; they used to start from `±1e300` and missed everything beyond). Under
+the order laws of the comparison (strict, transitive, `±inf` beyond every number, NaN comparing false), as soon as the
+vector holds one number — of any magnitude, the infinities included — `MIN` (`MAX`) is a non-NaN value of the vector
+and no value is below (above) it. -/
+theorem aggregate_min_max (L : OrdLaws α) (T : TopLaws α) (c : List α) (w : α) (hw : w ∈ c) (hn : Scalar.isNaN w = false) :
+    (minL c ∈ c ∧ Scalar.isNaN (minL c) = false ∧ ∀ v ∈ c, Scalar.lt v (minL c) = false) ∧
+    (maxL c ∈ c ∧ Scalar.isNaN (maxL c) = false ∧ ∀ v ∈ c, Scalar.lt (maxL c) v = false) :=
+  ⟨minL_is_minimum L T c w hw hn, maxL_is_maximum L T c w hw hn⟩
 
-/-- … and in general: nothing is below (above) the result, which is a value of the vector strictly inside the
-sentinel or the sentinel itself. -/
-theorem aggregate_sentinel (L : OrdLaws α) (c : List α) :
-    ((∀ v ∈ c, Scalar.lt v (minL c) = false) ∧ (minL c = Scalar.big ∨ (minL c ∈ c ∧ Scalar.lt (minL c) Scalar.big = true))) ∧
-    ((∀ v ∈ c, Scalar.lt (maxL c) v = false) ∧ (maxL c = Scalar.neg Scalar.big ∨ (maxL c ∈ c ∧ Scalar.lt (Scalar.neg Scalar.big) (maxL c) = true))) :=
-  ⟨minL_spec L c, maxL_spec L c⟩
+/-- **T8' (no number at all)**: on an empty or all-NaN feature `Min` returns `+inf` and `Max` returns `-inf`, their
+start values (the documented `min(x)` / `max(x)` are undefined there; the oracle does not judge that case). -/
+theorem aggregate_sentinel (L : OrdLaws α) (T : TopLaws α) (c : List α) (h : ∀ v ∈ c, Scalar.isNaN v = true) :
+    minL c = Scalar.inf ∧ maxL c = Scalar.neg Scalar.inf :=
+  minmax_of_no_number L T c h
 
 /-! ## non-vacuity -/
 
@@ -375,7 +374,7 @@ instance toy : Scalar Int where
   isNaN := fun _ => false
   nan := 0
   ofDec := fun m k => (m : Int) / (10 ^ k : Nat)
-  big := 10 ^ 300
+  inf := 10 ^ 300
 
 def trEx : Tr Int := ⟨3, [1, 2, 3], [0, 0, 0], [0, 0, 0], [0, 10, 20], [(['a'], [1, -2, 4]), (['b'], [2, 2, 5])]⟩
 /-- `(a+b)*2 - SUM{a}` -/
@@ -463,21 +462,40 @@ example : operate trEx "c=a/0".toList = (.error "err:zerodiv", trEx) := by
 example : denoteM trEx (.bin '+' (.call ['D', 'I', 'O', 'D', 'E'] (.var ['a'])) (.call ['A', 'R', 'G', 'M', 'A', 'X'] (.var ['b'])))
     = .ok (.vec [3, 2, 6]) := by rfl
 
-/-- the order laws of T8 hold for the toy scalar; the sentinel is visible: `MIN{[10^300+5]}` is `10^300` -/
-example : OrdLaws Int := ⟨fun a => by simp [Scalar.lt], fun a b c h1 h2 => by
-  simp only [Scalar.lt, decide_eq_true_eq] at h1 h2 ⊢; omega⟩
-example : minL ([10 ^ 300 + 5] : List Int) = 10 ^ 300 ∧ minL ([3, -7, 4] : List Int) = -7 ∧ maxL ([3, -7, 4] : List Int) = 4 := by
-  decide +kernel
+/-- a five-element scalar for T8: `0 = -inf < 1 < 2 < 3 = +inf`, `4` = NaN; its comparison satisfies the laws -/
+def ord5 : Scalar (Fin 5) where
+  add := fun a _ => a
+  sub := fun a _ => a
+  mul := fun a _ => a
+  div := fun a _ => a
+  neg := fun a => if a = 4 then 4 else 3 - a
+  pow := fun a _ => .ok a
+  sqrt := fun a => .ok a
+  abs := fun a => a
+  lt := fun a b => decide (a < b ∧ a ≠ 4 ∧ b ≠ 4)
+  isZero := fun _ => false
+  isNaN := fun a => a == 4
+  nan := 4
+  ofDec := fun _ _ => 1
+  inf := 3
+example : @OrdLaws (Fin 5) ord5 := @OrdLaws.mk (Fin 5) ord5 (by decide) (by decide)
+example : @TopLaws (Fin 5) ord5 := @TopLaws.mk (Fin 5) ord5 (by decide) (by decide) (by decide) (by decide) (by decide) (by decide)
+/-- NaN is skipped, values of every magnitude are seen, nothing at all gives the start value -/
+example : minL ([3, -7, 4] : List Int) = -7 ∧ maxL ([3, -7, 4] : List Int) = 4 := by decide +kernel
+example : @minL (Fin 5) ord5 [4, 2, 1, 4] = 1 ∧ @maxL (Fin 5) ord5 [4, 2, 1, 4] = 2 ∧ @minL (Fin 5) ord5 [4, 4] = 3
+    ∧ @maxL (Fin 5) ord5 [] = 0 := by decide
 
 /-- `operate("b*factor+k", {'factor': 2, 'k': 10})` on the toy scalar -/
 example : (operateX [(['f', 'a', 'c', 't', 'o', 'r'], 2), (['k'], 10)] trEx "b*factor+k".toList).1.toOption = some (some [14, 14, 20]) := by
   decide +kernel
 
-/-- `Track["(a+b)*2"]` is `operate("(a+b)*2")`; but `Track["SUM{a}"]` looks up a feature called `SUM{a}` while
-`operate("SUM{a}")` evaluates it (the braces are not among the characters `__getitem__` tests) -/
+/-- `Track["(a+b)*2"]` is `operate("(a+b)*2")`, and so is `Track["SUM{a}"]` since fix 396f8f9 (the opening brace is
+among the characters `__getitem__` tests); a plain name is looked up -/
 example : getitemStr trEx "(a+b)*2".toList = operate trEx "(a+b)*2".toList :=
   getitem_is_operate trEx _ (by decide +kernel) (by decide +kernel)
-example : (getitemStr trEx "SUM{a}".toList).1.toOption = none ∧ (operate trEx "SUM{a}".toList).1.toOption = some (some [3, 3, 3]) := by
+example : getitemStr trEx "SUM{a}".toList = operate trEx "SUM{a}".toList :=
+  getitem_is_operate trEx _ (by decide +kernel) (by decide +kernel)
+example : (getitemStr trEx "SUM{a}".toList).1.toOption = some (some [3, 3, 3]) ∧ (getitemStr trEx "b".toList).1.toOption = some (some [2, 2, 5]) := by
   decide +kernel
 
 end TV.C02
